@@ -1493,6 +1493,9 @@ class ContactHandler(Messenger, dbus.service.Object):
             if not self._tx_pend_start:
                 # nothing to do
                 return False
+            if self._in_term:
+                # no new transfers while terminating
+                return False
 
             self._tx_tmp = self._tx_pend_start.pop(0)
 
